@@ -11,6 +11,7 @@
 extern const char* fmc_wrap_end_check(void);
 extern int fmc_fiber_index(fiber_t* f);
 extern long fmc_fiber_runs(fiber_t* f);
+extern long fmc_thread_switches(int tid);
 
 #define STK 20000
 
@@ -18,7 +19,7 @@ extern long fmc_fiber_runs(fiber_t* f);
 // the C01/C02 checks add the run map / wake accounting)
 static inline int rt_start(void) {
   int n = fmc_param("N", 2);
-  fmc_oracles((unsigned)fmc_param("oracles", FMC_O_HEAP | FMC_O_STACK));
+  fmc_oracles((unsigned)fmc_param("oracles", FMC_O_HEAP | FMC_O_STACK | FMC_O_RECLAIM));
   if (fiber_manager_init(n) != FIBER_SUCCESS) fmc_fail("fiber_manager_init failed");
   return n;
 }
@@ -52,6 +53,15 @@ static inline void rt_finish(void) {
     fmc_fail("rt_finish: main fiber resumed from a signal nobody raises");
   }
   fmc_end();
+}
+
+// park the main fiber for good; when every kernel thread has gone idle `hook` runs
+// (it checks the end state and calls fmc_end(), or fails)
+static inline void rt_park_until_quiescent(int (*hook)(void)) {
+  rt_quiescent_hook = hook;
+  fiber_signal_init(&rt_never);
+  fiber_signal_wait(&rt_never);
+  fmc_fail("rt_park: main fiber resumed from a signal nobody raises");
 }
 
 // force the 1-in-1024 load-balance path on the next plain yield of this thread
